@@ -38,6 +38,9 @@ def run(ctx):
                       "parameter and a foreign class's: one entry out per entry in, bound to the instance, each with its OWN name and kind", floor=1)
     ctx.rule("R06.t", "slot dispatch model: Parameter._trigger_event interpreted for an instance-level and a class-level Parameter x the owner's batch open / closed: the watchers of a slot "
                       "('p:bounds' dependants) go through the OWNER's namespace -- queued while its batch is open, flushed there otherwise", floor=1)
+    ctx.rule("R06.x", "context-manager model (shared with R05.x): batch_call_watchers restores the batching flag BEFORE it flushes, so the depends methods the flush runs dispatch their own "
+                      "assignments immediately and a failing one cannot leave the object batching", floor=1)
+    ctx.rule("R06.e", "restorer model (shared with R04.r): leaving `with obj.param.update(...)` writes every saved value back in ONE update -- a depends method of several of them runs once", floor=1)
     ctx.rule("R06.h", "flush model (shared with R04.h): at the flush every queued watcher -- the callers of depends methods are such watchers -- runs once with the last event per (parameter, "
                       "kind): a slot event ('a:bounds') and a value event of the same parameter in one batch do not shadow each other", floor=1)
     ctx.rule("R06.w", "depends model, watchers per object: Parameters._update_deps(init=True) interpreted for a method with two KINDS of dependency on one parameter ('a', 'a:bounds') and for one "
@@ -97,3 +100,7 @@ def run(ctx):
         ctx.ok("R06.w", g_w, g_w.node, "depends model: one watcher serves a method on its own object, whatever the kinds of its dependencies")
     from checks.shared import flush_model
     flush_model(ctx, "R06.h")
+    from checks import cm_model
+    cm_model.report(ctx, "C06", "R06.x")
+    from checks.shared import restorer_model
+    restorer_model(ctx, "R06.e")
